@@ -1,4 +1,5 @@
-import Proofs.RWSafe
+import Proofs.RWShare
+import Proofs.RWCond
 /-!
 # C20 — reader-writer lock: writers exclusive, readers shared, no deadlock
 
@@ -67,5 +68,95 @@ theorem reusable (rs : List (List Role)) (c : Cfg) (h : Reach GP rs c) (hidle : 
 /-- **release_never_raises**: no reachable step releases a free mutex (`RuntimeError: release unlocked lock`) -/
 theorem release_never_raises (rs : List (List Role)) (c : Cfg) (h : Reach GP rs c) (i : Nat) :
     tstep GP c i ≠ .err := fun he => no_err_thr h i ⟨(), he⟩
+
+/-- **readers_shared**: thread `i` is about to start a reader round and every other thread is between rounds, finished
+or inside as a reader (no writer around).  Scheduled 8 times in a row, thread `i` runs through the whole of
+`reader_acquire` — no step blocks, nobody has to release anything — and afterwards it is inside while every other thread
+is exactly where it was: the readers that were inside are still inside. -/
+theorem readers_shared (rs : List (List Role)) (c : Cfg) (h : Reach GP rs c) (i : Nat) (rest : List Role)
+    (hi : c.thr[i]? = some ⟨.reader :: rest, 0⟩) (hq : OthersQuietOrReading c i) :
+    ∃ c', runSched GP c (List.replicate 8 i) = .ok c' ∧ c'.thr = c.thr.set i ⟨.reader :: rest, 8⟩ ∧
+      (⟨Role.reader :: rest, 8⟩ : Thread).insideAs GP .reader = true := by
+  obtain ⟨c', h1, h2⟩ := readers_shared_thr h i rest hi hq
+  exact ⟨c', h1, h2, by simp [Thread.insideAs, Thread.pt, acq_len_reader]⟩
+
+/-- a concrete reachable configuration with two readers inside at the same time (3 threads: reader, reader, writer;
+schedule: thread 0 eight steps, thread 1 eight steps) — also the non-vacuity witness of `readers_shared`: its
+hypotheses hold after the first eight steps -/
+theorem two_readers_inside_reachable :
+    ∃ c, Reach GP [[.reader], [.reader], [.writer]] c ∧
+      c.thr = [⟨[.reader], 8⟩, ⟨[.reader], 8⟩, ⟨[.writer], 0⟩] ∧
+      (∀ t ∈ c.thr.take 2, t.insideAs GP .reader = true) ∧ c.sh.rc = 2 := by
+  have hrun : runSched GP (Cfg.init GP [[.reader], [.reader], [.writer]])
+      (List.replicate 8 0 ++ List.replicate 8 1) =
+      .ok ⟨⟨0, 0, 1, 0, 0, 2, 0⟩, [⟨[.reader], 8⟩, ⟨[.reader], 8⟩, ⟨[.writer], 0⟩]⟩ := by decide
+  exact ⟨_, runSched_reach _ _ _ Reach.init hrun, rfl, by decide, rfl⟩
+
+example : ∃ rs c i rest, Reach GP rs c ∧ c.thr[i]? = some ⟨.reader :: rest, 0⟩ ∧ OthersQuietOrReading c i ∧
+    ∃ j t, j ≠ i ∧ c.thr[j]? = some t ∧ t.insideAs GP .reader = true := by
+  have hrun : runSched GP (Cfg.init GP [[.reader], [.reader], [.writer]]) (List.replicate 8 0) =
+      .ok ⟨⟨0, 0, 1, 0, 0, 1, 0⟩, [⟨[.reader], 8⟩, ⟨[.reader], 0⟩, ⟨[.writer], 0⟩]⟩ := by decide
+  refine ⟨_, _, 1, [], runSched_reach _ _ _ Reach.init hrun, rfl, ?_, 0, ⟨[.reader], 8⟩, by decide, rfl, by decide⟩
+  intro j t hj ht
+  match j, hj, ht with
+  | 0, _, ht => simp at ht; subst ht; right; decide
+  | 2, _, ht => simp at ht; subst ht; left; decide
+  | j + 3, _, ht => simp at ht
+
+/-- **deadlock_free**: in every reachable configuration (any number of threads, any schedule so far) in which some
+thread has not finished all its rounds — in particular whenever a thread is in the middle of an acquire or release —
+some thread can take a step.  Proof: counting level (`deadlock_free_count`) by the staged case analysis
+"holders of RM, then of WM, then NW / NR / RQ", lifted through `count_simulation`. -/
+theorem deadlock_free (rs : List (List Role)) (c : Cfg) (h : Reach GP rs c)
+    (hun : ∃ t ∈ c.thr, t.finished = false) : ∃ i c', tstep GP c i = .ok c' :=
+  deadlock_free_thr h hun
+
+/-- counting level: the invariant and one unfinished thread imply an enabled transition -/
+theorem deadlock_free_count (s : CS) (h : RInv s) (hex : ∃ r k, s.cnt r k ≠ 0 ∧ k < (GP.round r).length) :
+    ∃ r k nxt s', cstep GP ⟨r, k, nxt⟩ s = .ok s' := by
+  obtain ⟨r, k, nxt, s', hs⟩ := rinv_progress s h hex
+  exact ⟨r, k, nxt, s', hs⟩
+
+/-- non-vacuity: a reachable configuration in which a thread IS blocked (reader 0 waits for `NR`, held by the writers'
+light switch) and another one can move -/
+example : ∃ c, Reach GP [[.reader], [.writer]] c ∧ tstep GP c 0 = .blocked ∧ ∃ i c', tstep GP c i = .ok c' := by
+  have hrun : runSched GP (Cfg.init GP [[.reader], [.writer]]) [1, 1, 1, 0] =
+      .ok ⟨⟨1, 1, 0, 0, 1, 0, 1⟩, [⟨[.reader], 1⟩, ⟨[.writer], 3⟩]⟩ := by decide
+  exact ⟨_, runSched_reach _ _ _ Reach.init hrun, by decide, 1,
+    ⟨⟨1, 1, 0, 0, 0, 0, 1⟩, [⟨[.reader], 1⟩, ⟨[.writer], 4⟩]⟩, by decide⟩
+
+/-- **all_schedules_terminate**: from every reachable configuration `c`
+(1) every schedule is finite — `n` steps consume exactly `n` of the remaining instructions;
+(2) a schedule that cannot be extended (no thread can take a step) ends with EVERY thread finished — every
+    `*_acquire` and `*_release` call has returned, no wake-up was lost — and has used all remaining instructions;
+(3) such a complete schedule exists. -/
+theorem all_schedules_terminate (rs : List (List Role)) (c : Cfg) (h : Reach GP rs c) :
+    (∀ sched c', runSched GP c sched = .ok c' → c'.remaining GP + sched.length = c.remaining GP) ∧
+    (∀ sched c', runSched GP c sched = .ok c' → Stuck GP c' → AllFinished c' ∧ sched.length = c.remaining GP) ∧
+    (∃ sched c', runSched GP c sched = .ok c' ∧ AllFinished c') := by
+  refine ⟨fun sched c' hr => runSched_remaining sched c c' hr, ?_, can_finish _ c h rfl⟩
+  intro sched c' hr hstuck
+  have hfin := stuck_finished (runSched_reach sched c c' h hr) hstuck
+  have h0 := remaining_zero_of_finished (P := GP) hfin
+  have := runSched_remaining sched c c' hr
+  exact ⟨hfin, by omega⟩
+
+/-- non-vacuity: a complete schedule of 3 readers + 2 writers (56 steps) ends with everybody finished and the lock in
+its initial state -/
+example : ∃ sched c', runSched GP (Cfg.init GP [[.reader], [.reader], [.reader], [.writer], [.writer]]) sched = .ok c' ∧
+    sched.length = 56 ∧ c'.sh = Shared.init 0 ∧ c'.thr = List.replicate 5 ⟨[], 0⟩ := by
+  refine ⟨List.replicate 12 0 ++ List.replicate 12 1 ++ List.replicate 12 2 ++ List.replicate 10 3 ++
+    List.replicate 10 4, ⟨Shared.init 0, List.replicate 5 ⟨[], 0⟩⟩, ?_, by decide, rfl, rfl⟩
+  decide
+
+/-- **conditional_test_stable** (why `if self.__counter == k: lock.acquire()` may be modelled as ONE instruction that is
+retried as a whole when the acquire blocks): while some thread is at a conditional instruction of a light switch, no
+step of any thread changes that switch's counter — so the outcome of the test cannot change while the thread waits. -/
+theorem conditional_test_stable (rs : List (List Role)) (c c' : Cfg) (i : Nat) (h : Reach GP rs c)
+    (hs : tstep GP c i = .ok c') :
+    ((cntAt c.thr .reader 4 ≠ 0 ∨ cntAt c.thr .reader 10 ≠ 0) → c'.sh.rc = c.sh.rc) ∧
+    ((cntAt c.thr .writer 2 ≠ 0 ∨ cntAt c.thr .writer 8 ≠ 0) → c'.sh.wc = c.sh.wc) := by
+  obtain ⟨l, hl⟩ := sim_ok hs
+  exact rinv_ctr_frozen l (abs c) (abs c') (reach_rinv h) hl
 
 end C20
